@@ -72,6 +72,10 @@ func (f *WithMutexLock) Call(s *slip.Scope, args slip.List, depth int) (result s
 	forms := args[1:]
 	for i := range forms {
 		result = slip.EvalArg(s, forms, i, d2)
+		if _, exit := result.(slip.NonLocalExit); exit {
+			// return-from, return or go: control is leaving the body.
+			return
+		}
 	}
 	return
 }
